@@ -97,6 +97,11 @@ def argvOf (cmd : List (List UInt8)) (replace : Option (List UInt8)) (extra : Li
     prog :: initial.map (replaceIn pat line)
   | _, _ => cmd ++ extra.map (·.bytes)
 
+/-- replace mode: the command after substitution passes the limiter chain from the empty state
+    (`execute`'s re-check; the command word and every argument are charged like initial arguments) -/
+def substFits (lim : Limits) (cmd : List (List UInt8)) (replace : Option (List UInt8)) (extra : List Arg) : Bool :=
+  (initState lim LState.zero (argvOf cmd replace extra)).isSome
+
 /-- the same option given twice (clap rejects it; `-I` and `-i`/`--replace` are different options) -/
 def Opt.tag : Opt → Nat
   | .n _ => 0 | .l _ => 1 | .s _ => 2 | .x => 3 | .r => 4 | .null => 5 | .d _ => 6
@@ -143,6 +148,10 @@ def xargsMain (opts : List Opt) (cmd : List (List UInt8)) (input : List UInt8)
   | some init =>
     let (args, err) := readInput nz.delim input
     let run := processInput cfg init err ⟨init, []⟩ false false [] script args
-    ⟨run.status, run.batches.map (argvOf cmd nz.replace)⟩
+    -- replace mode: `execute` passes the command after substitution through the limiters afresh;
+    -- the first command that does not fit is not started: the run ends there with status 1
+    match nz.replace, run.batches.findIdx? (fun b => !substFits lim cmd nz.replace b) with
+    | some _, some k => ⟨1, (run.batches.take k).map (argvOf cmd nz.replace)⟩
+    | _, _ => ⟨run.status, run.batches.map (argvOf cmd nz.replace)⟩
 
 end FuModel.Xargs
